@@ -34,6 +34,44 @@ pub fn states_of(n: &str) -> States {
     }
 }
 
+/// `slice <width> <ops> <msb> <lsb>`: one parent signal, then `slice_signal`
+pub fn slice(toks: &[&str]) -> String {
+    let types = format!("b{}", toks[1]);
+    let (h, ids) = mk_hierarchy(&types);
+    let mut enc = Encoder::new(&h);
+    if toks[2] != "-" {
+        for op in toks[2].split(';') {
+            if !apply_op(&mut enc, op) {
+                return "bad-request".to_string();
+            }
+        }
+    }
+    let (mut source, _tt) = enc.finish();
+    let signals = source.load_signals(&ids, &h, false);
+    let msb: u32 = toks[3].parse().unwrap();
+    let lsb: u32 = toks[4].parse().unwrap();
+    let sliced = wellen::verif::slice_signal(SignalRef::from_index(1).unwrap(), &signals[0].1, msb, lsb);
+    signal_str(&sliced)
+}
+
+fn apply_op(enc: &mut Encoder, op: &str) -> bool {
+    let b = op.as_bytes();
+    match b[0] {
+        b't' => enc.time_change(op[1..].parse::<u64>().unwrap()),
+        b'v' => {
+            let f: Vec<&str> = op[1..].split(':').collect();
+            enc.vcd_value_change(f[0].parse::<u64>().unwrap(), &hex_bytes(f[1]));
+        }
+        b'n' => {
+            let f: Vec<&str> = op[1..].split(':').collect();
+            let id = SignalRef::from_index(f[0].parse::<usize>().unwrap()).unwrap();
+            enc.raw_value_change(id, &hex_bytes(f[2]), states_of(f[1]));
+        }
+        _ => return false,
+    }
+    true
+}
+
 pub fn store(toks: &[&str]) -> String {
     let (h, ids) = mk_hierarchy(toks[1]);
     let mut done: Vec<Encoder> = vec![];
